@@ -842,3 +842,31 @@ V("c06d-accumulator-input-dtype", "C06", {"rule": "C06d", "contains": "accumulat
 V("c06d-accumulator-int64", "C06", "silent",
   (INDICES, "    sum_ = np.zeros(shape=basis.shape[:-1], dtype=np.int32)\n    accumulator = np.zeros(shape=basis.shape[:-1], dtype=np.int32)\n\n    for i in range(basis.shape[-1]):",
    "    sum_ = np.zeros(shape=basis.shape[:-1], dtype=np.int64)\n    accumulator = np.zeros(shape=basis.shape[:-1], dtype=np.int64)\n\n    for i in range(basis.shape[-1]):"))
+
+# ------------------------------------------------------------------------------------------- C01
+PURESTEPS1 = "piquasso/_simulators/fock/pure/simulation_steps/__init__.py"
+GENSTEPS1 = "piquasso/_simulators/fock/general/simulation_steps.py"
+PSTEPS1 = "piquasso/_simulators/passive/simulation_steps.py"
+GSTEPS1 = "piquasso/_simulators/gaussian/simulation_steps.py"
+GATES1 = "piquasso/instructions/gates.py"
+V("c01a-passive-kerr-normal-ordered", "C01", {"rule": "C01a", "contains": "passive.simulation_steps:kerr"},
+  (PSTEPS1, "            1j * xi * state._occupation_numbers[i][mode] ** 2\n",
+   "            1j * xi * state._occupation_numbers[i][mode] * (state._occupation_numbers[i][mode] - 1)\n"))
+V("c01a-mixed-cross-kerr-sign", "C01", {"rule": "C01a", "contains": "general.simulation_steps:cross_kerr"},
+  (GENSTEPS1, "                basis[modes[0]] * basis[modes[1]]\n                - dual_basis[modes[0]] * dual_basis[modes[1]]\n",
+   "                basis[modes[0]] * basis[modes[1]]\n                + dual_basis[modes[0]] * dual_basis[modes[1]]\n"))
+V("c01a-mixed-kerr-linear", "C01", {"rule": "C01a", "contains": "general.simulation_steps:kerr"},
+  (GENSTEPS1, "        coefficient = np.exp(1j * xi * (number**2 - dual_number**2))\n", "        coefficient = np.exp(1j * xi * (number - dual_number) ** 2)\n"))
+V("c01b-squeezing-active-sign", "C01", {"rule": "C01b", "contains": "Squeezing|active"},
+  (GATES1, "        return np.array([[-np.sinh(r) * np.exp(1j * phi)]], dtype=config.complex_dtype)", "        return np.array([[np.sinh(r) * np.exp(1j * phi)]], dtype=config.complex_dtype)"))
+V("c01b-gaussian-displacement-conjugated", "C01", {"rule": "C01b", "contains": "displacement"},
+  (GSTEPS1, "        state._m, indices, state._m[indices] + r * np.exp(1j * phi)\n", "        state._m, indices, state._m[indices] + r * np.exp(-1j * phi)\n"))
+V("c01c-linear-block-not-conjugated", "C01", {"rule": "C01c", "contains": "pure.simulation_steps:linear"},
+  (PURESTEPS1, "            [np.conj(active_block), np.conj(passive_block)],\n        ],\n    )\n\n    unitary_last", "            [active_block, np.conj(passive_block)],\n        ],\n    )\n\n    unitary_last"))
+V("c01a-pure-kerr-local-name", "C01", "silent",
+  (PURESTEPS1, "    coefficients = np.exp(1j * xi * np.array([basis[mode] ** 2 for basis in space]))\n",
+   "    squares = np.array([basis[mode] ** 2 for basis in space])\n    coefficients = np.exp(1j * xi * squares)\n"))
+V("c01a-passive-kerr-factor-order", "C01", "silent",
+  (PSTEPS1, "            1j * xi * state._occupation_numbers[i][mode] ** 2\n", "            xi * 1j * state._occupation_numbers[i][mode] ** 2\n"))
+V("c01b-displacement-euler-form", "C01", "silent",
+  (GSTEPS1, "        state._m, indices, state._m[indices] + r * np.exp(1j * phi)\n", "        state._m, indices, state._m[indices] + r * (np.cos(phi) + 1j * np.sin(phi))\n"))
